@@ -220,3 +220,46 @@ func OwnCallsTo(f *ssa.Function, keys ...string) []ssa.CallInstruction {
 	}
 	return out
 }
+
+// RecursesInLoop tells whether f calls itself from inside a loop of its (inlined) body: directly, or by handing
+// itself (or a closure that calls it) as the function argument a helper applies to the elements in its own loop.
+func RecursesInLoop(f *ssa.Function) bool {
+	rec := false
+	WithHost(f, func() {
+		loopCalled := map[*ssa.Function]bool{}
+		for _, c := range Calls(f) {
+			if !OnCycle(c) && !loopCalled[c.Parent()] {
+				continue
+			}
+			if c.Common().StaticCallee() == f {
+				rec = true
+				return
+			}
+			if c.Common().IsInvoke() || c.Common().StaticCallee() != nil {
+				continue
+			}
+			for _, o := range Origins(c.Common().Value) {
+				switch g := o.(type) {
+				case *ssa.Function:
+					if g == f {
+						rec = true
+						return
+					}
+				case *ssa.MakeClosure:
+					if fn, ok := g.Fn.(*ssa.Function); ok {
+						loopCalled[fn] = true
+					}
+				}
+			}
+		}
+		// closures applied in a loop: a direct call of f inside them is a call per element
+		for g := range loopCalled {
+			for _, c := range OwnCalls(g) {
+				if c.Common().StaticCallee() == f {
+					rec = true
+				}
+			}
+		}
+	})
+	return rec
+}
